@@ -131,6 +131,13 @@ where
         // 1. Computing the matrix dimensions.
         let (n_rows, n_cols) = param.compute_dimensions(coeffs.len());
 
+        // A code of fixed shape cannot hold more coefficients than its matrix has entries:
+        // `resize` below would silently drop the surplus and commit to a truncation.
+        assert!(
+            coeffs.len() <= n_rows * n_cols,
+            "the polynomial has more coefficients than the parameters support"
+        );
+
         // padding the coefficient vector with zeroes
         coeffs.resize(n_rows * n_cols, F::zero());
 
